@@ -144,6 +144,7 @@ struct HandlerScript {
 };
 struct PlannedUnit {
     int hid = 0;
+    int trail = 0;         // blanks after the last item (or after the header when the list is empty): legal, must change nothing
     std::vector<Item> items;
     std::string bad;       // malformed fragment appended to the list (MALFORMED when non-empty)
     bool valid = true;     // labels agree with literals
@@ -285,6 +286,13 @@ struct PRun {
         }
         if (!it) {
             // ABSENT
+            if (reader == R_RAW && !v.violated && codes.size() <= 1) {
+                // documented absence report: SCPI_ParamIsValid() is TRUE when an optional parameter is just missing, FALSE after an error
+                bool valid = SCPI_ParamIsValid(&raw);
+                if (valid != !mandatory)
+                    v.fail(mandatory ? "absent-mandatory" : "absent-optional", "reader=Parameter isvalid",
+                           fmt("SCPI_Parameter(%s) on an exhausted list: SCPI_ParamIsValid() reports %d", mandatory ? "mandatory" : "optional", valid));
+            }
             if (mandatory) {
                 if (ret || codes.size() != 1 || codes[0] != -109)
                     v.fail("absent-mandatory", fmt("reader=%s", rn.c_str()),
@@ -540,6 +548,7 @@ void execute_c05(const Plan &plan, Verdict &v) {
             }
             PlannedUnit pu;
             pu.hid = (int) clampl(op.arg(0), 0, 1000);
+            pu.trail = (int) clampl(op.arg(1), 0, 3);
             run.units.push_back(pu);
             msgs.back().unit_idx.push_back((int) run.units.size() - 1);
         } else if (op.kind == "p" && in_msg && op.has_s && !run.units.empty()) {
@@ -703,6 +712,9 @@ void execute_c05(const Plan &plan, Verdict &v) {
         if (!pu.bad.empty()) {
             if (pu.items.empty() && pu.bad[0] != ' ') t += " ";
             t += pu.bad;
+        } else if (pu.trail) {
+            t += std::string((size_t) pu.trail, ' ');
+            COUNT("probe_trailing_blanks");
         }
         return t;
     };
@@ -873,7 +885,7 @@ void generate_c05(Rng &r, const GenOpts &g, Plan &p) {
             long nu = r.chance(1, 2) ? 1 : r.range(2, 4);
             for (long u = 0; u < nu; u++) {
                 long hid = (long) r.below((uint64_t) nh);
-                p.ops.push_back(Op("u", {hid}));
+                p.ops.push_back(Op("u", {hid, r.chance(1, 5) ? r.range(1, 2) : 0}));
                 const auto &sig = sigs[(size_t) hid];
                 long ni;
                 switch (r.below(6)) {
@@ -934,7 +946,7 @@ const Property C05 = {
     generate_c05,
     execute_c05,
     {"probe_absent_mandatory", "probe_absent_optional", "probe_surplus_parameters", "probe_silent_handler_failure", "probe_blank_before_comma", "probe_malformed_list",
-     "probe_several_messages_in_one_call", "fault_handler_fails_silently", "fault_error_pushed_by_handler", "probe_handler_pushes_status_event_code", "probe_null_callback_unit"},
+     "probe_several_messages_in_one_call", "fault_handler_fails_silently", "fault_error_pushed_by_handler", "probe_handler_pushes_status_event_code", "probe_null_callback_unit", "probe_trailing_blanks"},
     "1..3 input calls of 1..3 messages of 1..4 units; every unit pairs one of 1..4 seeded handler signatures (0..4 steps drawn from 15 readers incl. arrays, mandatory/"
     "optional, four return policies) with a list of 0..5 items whose class and value are known by construction (DEC incl. .5 forms, DEC+suffix known/unknown, #H/#Q/#B, "
     "mnemonics in/outside the bool/choice/special lists, both quote styles, blocks, expressions), blanks on either side of commas, malformed fragments on the last unit; "
